@@ -189,11 +189,35 @@ def obs_pipeline(prop, tier, seed, work, t0, flavor="sync"):
                  harness_hang=(hrc == 3),
                  mc_config="Obs.tla, NV=3, 2 owners, 2 subscribers, 1 weak, 2 guards, <= %d operations" % (5 if quick else 7),
                  exhaustive=False)
-    return finish(prop, tier, seed, t0, mc, n, beh, val, OBS_RULES.get(prop, OBS_RULES["C01"]), obs_nontrivial(prop), extra,
-                  ["the harness executes each call faithfully and logs its result (no oracle in the harness)",
+    nontriv = obs_nontrivial(prop)
+    sig = obs_sig
+    assumptions = ["the harness executes each call faithfully and logs its result (no oracle in the harness)",
                    "TLC's evaluation of Obs.tla / TraceObs.tla; bounded constants for the exhaustive part",
-                   "single-threaded driver: calls that would block forever are not issued"],
-                  "obs", obs_sig, replay_extra=dict(flavor=flavor))
+                   "single-threaded driver: calls that would block forever are not issued"]
+    if prop in ("C02", "C03") and flavor == "sync":
+        # thread part: forced schedules from ObsConc.tla + free-running programs, judged by TraceLin.tla
+        lc = lin_collect(prop, tier, seed, work, beh, n)
+        val["violations"] += lc["violations"]
+        val["states"] = val.get("states", 0) + lc["states"]
+        n += lc["n"]
+        mc = dict(distinct=mc["distinct"] + lc["mc_states"], generated=mc["generated"] + lc["mc_trans"])
+        extra.update(concurrent=dict(histories_judged=lc["runs"], forced_schedules=lc["nsched"], free_running_programs=lc["nfree"],
+                                     history_events=lc["events"], harness_hang=lc["hang"],
+                                     mc_config="ObsConc.tla, 3 threads, all interleavings at pause-point granularity"))
+        single = nontriv
+
+        def nontriv(b):
+            if isinstance(b, dict):
+                return True
+            if b and b[0].get("op") == "New" and any(o.get("op") == "Go" for o in b):
+                return True
+            return single(b)
+
+        def sig(v):
+            return lin_sig(v) if isinstance(v["detail"], dict) and "rejected" in v["detail"] else obs_sig(v)
+        assumptions += ["thread part: free-running threads sample OS schedules; forced schedules are exact only at the instrumented pause points"]
+    return finish(prop, tier, seed, t0, mc, n, beh, val, OBS_RULES.get(prop, OBS_RULES["C01"]), nontriv, extra,
+                  assumptions, "obs", sig, replay_extra=dict(flavor=flavor))
 
 
 for _p in ("C01", "C02", "C03", "C19"):
@@ -208,6 +232,8 @@ def replay(prop, path, work):
     with open(beh, "w") as f:
         f.write(json.dumps(payload["behaviour"]) + "\n")
     trace = os.path.join(work, "trace.ndjson")
+    if layer == "obs" and (isinstance(payload["behaviour"], dict) or any(o.get("op") == "Go" for o in payload["behaviour"])):
+        layer = "lin"
     if layer == "obs":
         flavor = payload.get("flavor", "sync")
         run_harness(["obs-replay" if flavor == "sync" else "obs-async-replay", beh, trace, "--nv", "3"])
@@ -220,6 +246,19 @@ def replay(prop, path, work):
     elif layer == "adapters":
         run_harness(["adapters-replay", beh, trace])
         val = ad_validate(trace, work)
+    elif layer == "lin":
+        with open(beh, "w") as f:
+            f.write(json.dumps(payload["behaviour"]) + "\n")
+        run_harness(["threads", beh, trace, "--repeat", "20"])
+        r = validate_lin(trace, work)
+        print(open(trace).read()[:6000])
+        for v in r["violations"]:
+            print("history rejected: property=%s clause=%s run=%d rejected=%s" % (v["prop"], v["clause"], v["run"], json.dumps(v["detail"]["rejected"])))
+        if any(v["prop"] == prop for v in r["violations"]):
+            print("VIOLATION property=%s replay=%s" % (prop, path))
+            return 1
+        print("replay: property %s held on 20 executions of this program (forced schedule if one is stored)" % prop)
+        return 0
     elif layer == "tokens":
         sub = payload.get("signature", {}).get("layer", "vec")
         cmd = {"obs": ["obs-replay", beh, trace, "--nv", "3", "--track"], "vec": ["vec-replay", beh, trace, "--track"],
@@ -714,3 +753,219 @@ def tokens_pipeline(prop, tier, seed, work, t0):
 
 
 CHECKS["C20"] = tokens_pipeline
+
+
+# =========================================================================== concurrent layer (threads; C02, C03, C04)
+import sys as _sys
+_sys.path.insert(0, os.path.join(ROOT, "tools"))
+import conc_hist  # noqa: E402
+
+LIN_CONST = dict(NV=1000, OwnerIds={1, 2, 3}, SubIds={1, 2, 3}, WeakIds={1, 2, 3}, GuardIds={1, 2, 3}, Kinds={"shared"})
+_rej_re = re.compile(r'<<\s*"REJECTED",\s*(\d+),\s*("(?:[^"\\]|\\.)*")\s*>>')
+
+
+def _lin_runs(trace):
+    """[(run id, first line index (0-based), last line index)] of a lin trace."""
+    runs = []
+    with open(trace) as f:
+        for i, line in enumerate(f):
+            if '"e":"Begin"' in line:
+                runs.append([json.loads(line)["run"], i, i])
+            elif runs:
+                runs[-1][2] = i
+    return runs
+
+
+def _lin_classify(events, rej):
+    """Which property does an unlinearizable history violate? events: the run's records; rej: the rejected record."""
+    owners = 1
+    for e in events:
+        if e.get("e") == "setup" and e.get("op") == "CloneOwner":
+            owners += 1
+    pend = {}
+    for e in events:
+        if e.get("e") == "inv":
+            pend[e["t"]] = e["op"]
+        elif e.get("e") == "resp":
+            op = pend.pop(e["t"], None)
+            if op == "DropOwner":
+                owners -= 1
+            elif op == "Upgrade" and e["ret"]["t"] == "Ok":
+                owners += 1
+    if rej.get("e") in ("EndRun", "Stuck"):
+        return ("C03", "stuck-after-last-owner-dropped") if owners <= 0 else ("C02", "stuck-with-update-available")
+    if rej.get("e") == "Hung":
+        return ("C04", "deadlock")
+    if rej.get("e") == "resp":
+        # which call?
+        pend = {}
+        op = None
+        for e in events:
+            if e.get("e") == "inv":
+                pend[e["t"]] = e["op"]
+            elif e.get("e") == "resp":
+                if e is rej or (e.get("t") == rej.get("t") and e.get("ret") == rej.get("ret") and pend.get(e["t"]) is not None and e == rej):
+                    op = pend.get(e["t"])
+                pend.pop(e["t"], None)
+        if rej["ret"]["t"] == "Panic":
+            return ("C03" if op == "DropOwner" else "C04", "panic")
+        if op == "PollNext" and rej["ret"]["t"] == "End":
+            return ("C03", "end-while-owner-alive")
+        if op == "Upgrade":
+            return ("C03", "upgrade-result")
+        return ("C04", "not-linearizable")
+    return ("C04", "not-linearizable")
+
+
+def validate_lin(trace, work, tag="lin", max_rejects=40):
+    """Linearization search with cut-and-continue: every rejected history is cut out and the rest re-checked."""
+    c = os.path.join(work, "TraceLin.cfg")
+    write_cfg(c, spec="TraceSpec", constants=LIN_CONST, view="View", constraints=["Far"], postcondition="TraceAccepted")
+    lines = open(trace).read().splitlines()
+    runs = _lin_runs(trace)
+    viol = []
+    states = 0
+    start = 0
+    rounds = 0
+    while start < len(lines) and rounds <= max_rejects:
+        rounds += 1
+        part = os.path.join(work, "%s-part.ndjson" % tag)
+        with open(part, "w") as f:
+            f.write("\n".join(lines[start:]) + "\n")
+        r = tlc("TraceLin", c, work, workers=1, timeout=1500, env_extra={"TRACE": part}, tag=tag, dfs=True, xmx="4g")
+        if r["rc"] == 124:
+            raise ToolError("linearization search timed out")
+        states += r["distinct"]
+        if "STATS" not in r["out"]:
+            log(r["out"][-3000:])
+            raise ToolError("TraceLin did not finish")
+        m = _rej_re.search(r["out"])
+        if not m:
+            break
+        idx = start + int(m.group(1)) - 1          # 0-based line of the event no branch could consume
+        rej = json.loads(json.loads(m.group(2)))
+        run = next((x for x in runs if x[1] <= idx <= x[2]), None)
+        if run is None:
+            raise ToolError("rejected event outside any run")
+        events = [json.loads(x) for x in lines[run[1]:run[2] + 1]]
+        prop, clause = _lin_classify(events, rej)
+        viol.append(dict(run=run[0], event=idx - run[1] + 1, prop=prop, clause=clause,
+                         detail=dict(op=rej.get("e"), rejected=rej, history=events)))
+        start = run[2] + 1
+    os.path.exists(part) and os.remove(part)
+    return dict(violations=viol, states=states, events=len(lines), runs=len(runs))
+
+
+def lin_collect(prop, tier, seed, work, beh_path, offset):
+    """Concurrent part: TLC checks ObsConc, its interleavings are forced on real threads, free-running
+    histories are generated from GenLin; all recorded histories are judged by TraceLin."""
+    quick = tier == "quick"
+    mcs = mct = 0
+    inputs = os.path.join(work, "lin-in.ndjson")
+    open(inputs, "w").close()
+    nsched = 0
+    choices = dict(C02=["setpoll", "drop2"], C03=["drop2", "dropup"], C04=["setpoll", "drop2", "dropup"])[prop]
+    for ch in choices:
+        # design level: the repaired model (atomic drop decision) satisfies the invariants for all interleavings
+        c = os.path.join(work, "MCObsConc-%s.cfg" % ch)
+        write_cfg(c, spec="Spec", constants=dict(Threads={1, 2, 3}, DropDecisionAtomic=True, ProgChoice=ch), view="View",
+                  invariants=["ClosedWhenNoOwner", "NotClosedUnderOwner", "NoLostWake", "NoPanic", "CountsMatch"])
+        r = tlc("MCObsConc", c, work, workers=4, timeout=900, tag="mcc")
+        if not tlc_ok(r, "MCObsConc"):
+            log(r["out"][-4000:])
+            raise ToolError("MCObsConc(%s): the model violates its invariants (model error)" % ch)
+        mcs += r["distinct"]
+        mct += r["generated"]
+        # every interleaving as a schedule
+        c = os.path.join(work, "GenObsConc-%s.cfg" % ch)
+        write_cfg(c, spec="Spec", constants=dict(Threads={1, 2, 3}, DropDecisionAtomic=True, ProgChoice=ch), invariants=["PrintSchedule"])
+        uf = os.path.join(work, "sched-%s.out" % ch)
+        r = tlc("MCObsConc", c, work, workers=4, timeout=900, userfile=uf, tag="gcc")
+        tmp = os.path.join(work, "sched-%s.ndjson" % ch)
+        open(tmp, "w").close()
+        k = conc_hist.convert(uf, tmp, ch)
+        os.remove(uf)
+        # sample evenly when there are too many
+        cap = (500 if quick else 20000)
+        lines = open(tmp).read().splitlines()
+        step = max(1, len(lines) // cap)
+        lines = lines[(seed % step)::step]
+        with open(inputs, "a") as o:
+            o.write("\n".join(lines) + "\n")
+        nsched += len(lines)
+        os.remove(tmp)
+        log("schedules %s: %d of %d" % (ch, len(lines), k))
+    # free-running programs
+    c = os.path.join(work, "GenLin.cfg")
+    spec = "LSpecHandles" if prop == "C03" else "LSpec"
+    write_cfg(c, spec=spec, constants=dict(LIN_CONST, Threads={1, 2, 3}, Depth=14, SetupMin=3, SetupMax=6),
+              constraints=["BoundTree"], invariants=["PrintAtDepth"])
+    free = os.path.join(work, "lin-free.ndjson")
+    kfree, _ = gen_behaviours("GenLin", c, work, free, "sim", num=150 if quick else 6000, depth=15, seed=seed, tag="glin")
+    with open(inputs, "a") as o, open(free) as i:
+        for line in i:
+            o.write(line)
+    os.remove(free)
+    log("free-running programs: %d" % kfree)
+    trace = os.path.join(work, "lin-trace.ndjson")
+    hrc = run_harness(["threads", inputs, trace], timeout=3000)
+    # validate in parallel chunks
+    chunks = split_trace(trace, work, NCPU)
+
+    def one(ip):
+        i, p = ip
+        return validate_lin(p, work, tag="lin%d" % i)
+    with ThreadPoolExecutor(max_workers=NCPU) as ex:
+        results = list(ex.map(one, enumerate(chunks)))
+    viol = []
+    states = events = runs = 0
+    for r in results:
+        viol += r["violations"]
+        states += r["states"]
+        events += r["events"]
+        runs += r["runs"]
+    for p in chunks:
+        os.path.exists(p) and os.remove(p)
+    for v in viol:
+        v["run"] += offset
+    n = 0
+    with open(beh_path, "a") as o, open(inputs) as i:
+        for line in i:
+            if line.strip():
+                o.write(line if line.endswith("\n") else line + "\n")
+                n += 1
+    os.remove(trace)
+    return dict(violations=viol, states=states, events=events, runs=runs, n=n, nsched=nsched, nfree=kfree,
+                mc_states=mcs, mc_trans=mct, hang=(hrc == 3))
+
+
+def lin_sig(v):
+    d = v["detail"]
+    return dict(layer="lin", clause=v["clause"], rejected=(d.get("rejected") or {}).get("e"))
+
+
+def lin_pipeline(prop, tier, seed, work, t0):
+    beh = os.path.join(work, "beh.ndjson")
+    open(beh, "w").close()
+    lc = lin_collect(prop, tier, seed, work, beh, 0)
+    val = dict(violations=lc["violations"], stats=[], states=lc["states"])
+    extra = dict(histories_judged=lc["runs"], forced_schedules=lc["nsched"], free_running_programs=lc["nfree"],
+                 history_events=lc["events"], harness_hang=lc["hang"], exhaustive=False,
+                 mc_config="ObsConc.tla (3 threads, programs of the families setpoll/drop2/dropup, all interleavings at pause-point granularity), "
+                           "DropDecisionAtomic=TRUE")
+    mc = dict(distinct=lc["mc_states"], generated=lc["mc_trans"])
+
+    def nontriv(b):
+        h = b["hist"] if isinstance(b, dict) else b
+        return len({o["h"] for o in h if o["op"] not in ("New", "Go")}) >= 2
+    return finish(prop, tier, seed, t0, mc, lc["n"], beh, val,
+                  "thread programs: every interleaving of ObsConc.tla's small program families forced through the pause points, plus "
+                  "free-running programs generated from GenLin.tla; non-trivial = at least two threads issue calls",
+                  nontriv, extra,
+                  ["free-running threads sample OS schedules; forced schedules are exact only at the instrumented pause points",
+                   "TLC's linearization search over Obs.tla (TraceLin.tla); histories <= 16 calls",
+                   "a try_read/try_write failure is accepted whenever another call is in flight (transient internal locking)"],
+                  "lin", lin_sig)
+
+
+CHECKS["C04"] = lin_pipeline
